@@ -4,6 +4,7 @@ package main
 
 import (
 	"fmt"
+	"go/constant"
 	"go/token"
 	"go/types"
 	"sort"
@@ -1395,13 +1396,29 @@ func ruleC20Auth(r *Run) {
 	var infos []pinfo
 	for _, p := range paths {
 		pi := pinfo{val: map[string]bool{}, effect: "pass"}
+		infeasible := false
 		for _, d := range p.decs {
-			a, pol := atomOf(d.Cond)
+			cond, truth := d.Cond, d.Truth
+			// a condition merged through a phi (a && b written in a helper): what it is on this path
+			if rc := resolveAlong(cond, p.pred); rc != cond {
+				c2, pos := stripNot(rc)
+				cond, truth = c2, truth == pos
+				if k, isK := cond.(*ssa.Const); isK && k.Value != nil && k.Value.Kind() == constant.Bool {
+					if constant.BoolVal(k.Value) != truth {
+						infeasible = true
+					}
+					continue
+				}
+			}
+			a, pol := atomOf(cond)
 			if a == "" {
 				pi.unknown = "decision on something other than the four atoms: " + d.Cond.String()
 				continue
 			}
-			pi.val[a] = d.Truth == pol
+			pi.val[a] = truth == pol
+		}
+		if infeasible {
+			continue
 		}
 		challengeSeen := false
 		for _, b := range p.blocks {
@@ -1810,6 +1827,112 @@ func ruleC20Wrap(r *Run) {
 	r.Check(rule, FuncName(f)+":caller's list is read-only", f.Pos(), writes == 0, "the variadic wrapper list is only read")
 	// (2) fold shape
 	desc, asc, other := 0, 0, 0
+	// (2a) folds that consume a view of the list: a helper that pops wrappers off one end of its local slice header
+	// (the elements are not touched), or that recurses on the rest of the list
+	type viewFn struct {
+		g   *ssa.Function
+		prm ssa.Value
+	}
+	views := []viewFn{{f, list}}
+	for _, c := range calleesOf(w, f) {
+		for _, call := range callsIn(f, func(ci ssa.CallInstruction) bool { return staticCallee(ci) == c }) {
+			for i, a := range call.Common().Args {
+				if a == ssa.Value(list) && i < len(c.Params) {
+					views = append(views, viewFn{c, c.Params[i]})
+				}
+			}
+		}
+	}
+	for _, vf := range views {
+		g, prm := vf.g, vf.prm
+		isView := func(v ssa.Value) bool {
+			if v == prm {
+				return true
+			}
+			ph, ok := v.(*ssa.Phi)
+			if !ok {
+				return false
+			}
+			for _, e := range ph.Edges {
+				if e == prm {
+					continue
+				}
+				if sl, isSl := e.(*ssa.Slice); isSl && sl.X == ssa.Value(ph) {
+					continue
+				}
+				return false
+			}
+			return true
+		}
+		shrinks := func(v ssa.Value, front bool) bool {
+			ph, ok := v.(*ssa.Phi)
+			if !ok {
+				return false
+			}
+			for _, e := range ph.Edges {
+				sl, isSl := e.(*ssa.Slice)
+				if !isSl || sl.X != ssa.Value(ph) {
+					continue
+				}
+				if front {
+					if lo, okc := constInt(sl.Low); okc && lo == 1 && sl.High == nil {
+						return true
+					}
+				} else if sl.Low == nil && sl.High != nil {
+					return true
+				}
+			}
+			return false
+		}
+		eachInstr(g, func(in ssa.Instruction) {
+			c, ok := in.(*ssa.Call)
+			if !ok || c.Call.IsInvoke() || staticCallee(c) != nil {
+				return
+			}
+			ld, ok := c.Call.Value.(*ssa.UnOp)
+			if !ok {
+				return
+			}
+			ia, ok := ld.X.(*ssa.IndexAddr)
+			if !ok || !isView(ia.X) || (g == f && ia.X == ssa.Value(list)) && !inRecursion(g) {
+				return
+			}
+			// pop from the end: v[len(v)-1](acc); v = v[:len(v)-1]
+			if b, isB := ia.Index.(*ssa.BinOp); isB && b.Op == token.SUB {
+				if one, okc := constInt(b.Y); okc && one == 1 {
+					if lc, isL := b.X.(*ssa.Call); isL && isBuiltin(lc, "len") && lc.Call.Args[0] == ia.X && shrinks(ia.X, false) {
+						desc++
+						return
+					}
+				}
+			}
+			if zero, okc := constInt(ia.Index); okc && zero == 0 {
+				// pop from the front in a loop: the first listed wrapper is applied first = innermost
+				if shrinks(ia.X, true) {
+					asc++
+					return
+				}
+				// recursion on the rest: v[0](g(h, v[1:])) is first-outermost; g(v[0](h), v[1:]) is first-innermost
+				if inRecursion(g) && len(c.Call.Args) == 1 {
+					if rc, isRC := c.Call.Args[0].(*ssa.Call); isRC && staticCallee(rc) == g {
+						restOK := false
+						for _, a := range rc.Call.Args {
+							if sl, isSl := a.(*ssa.Slice); isSl && sl.X == ia.X {
+								if lo, okl := constInt(sl.Low); okl && lo == 1 && sl.High == nil {
+									restOK = true
+								}
+							}
+						}
+						if restOK {
+							desc++
+							return
+						}
+					}
+					asc++
+				}
+			}
+		})
+	}
 	eachInstr(f, func(in ssa.Instruction) {
 		c, ok := in.(*ssa.Call)
 		if !ok || c.Call.IsInvoke() || staticCallee(c) != nil {
@@ -2130,3 +2253,14 @@ func zzVerifStreamDataFirst(w io.Writer, r io.Reader) error {
 	}
 }
 `
+
+// inRecursion: g calls itself directly.
+func inRecursion(g *ssa.Function) bool {
+	rec := false
+	eachInstr(g, func(in ssa.Instruction) {
+		if c, ok := in.(ssa.CallInstruction); ok && staticCallee(c) == g {
+			rec = true
+		}
+	})
+	return rec
+}
